@@ -432,8 +432,9 @@ def nonblocking(ctx, rule):
             if cf is None:
                 continue
             from .util import reaches_via_new
-            if reaches_via_new(facts, cf, conn.P + "new"):
-                builder = cname
+            stores = any("HashMap" in (t_["callee"].get("path") or "") and last_seg(t_["callee"].get("path") or "") == "insert" for _b, t_ in cf.calls())
+            if reaches_via_new(facts, cf, conn.P + "new") or stores:
+                builder = cname     # the step that wraps the stream into a connection / stores it in the map
             if reaches_via_new(facts, cf, "std::os::unix::net::UnixStream::set_nonblocking"):
                 setter = cname
         order_ok = builder is not None and setter is not None and closures.index(setter) < closures.index(builder)
